@@ -287,7 +287,7 @@ func (u *Unit) checkNormalExit(ex *Exit, n int) {
 				f := name[:strings.IndexByte(name, ':')]
 				cur, old = u.fld(st, elem, f), u.fld(u.old, elem, f)
 			}
-			u.oblige(st, "writes-nothing", fmt.Sprintf("writes-nothing:%s:exit%d", name, n), []string{"C19"}, Eq(cur, old))
+			u.oblige(st, "writes-nothing", fmt.Sprintf("writes-nothing:%s:exit%d", compClass(name), n), []string{"C19"}, Eq(cur, old))
 		}
 	}
 	// frame: every component not covered by a modifies class must be unchanged
@@ -306,7 +306,7 @@ func (u *Unit) checkNormalExit(ex *Exit, n int) {
 		if u.declaredModifies(name) {
 			continue
 		}
-		u.oblige(st, "modifies", fmt.Sprintf("modifies:%s:exit%d", name, n), ct.Props, Eq(t, o))
+		u.oblige(st, "modifies", fmt.Sprintf("modifies:%s:exit%d", compClass(name), n), ct.Props, Eq(t, o))
 	}
 }
 
@@ -372,7 +372,13 @@ func (u *Unit) checkPanicExit(ex *Exit, n int) {
 	oenv.cur = u.old
 	p := u.evalSpecBool(&oenv, ct.Panics.Expr)
 	lbl := clauseLabel(ct.Panics, 0)
-	u.oblige(st, "panics-iff", fmt.Sprintf("panics-iff:%s:only-if:%s", lbl, sanitize(ex.note)), ct.Panics.props(ct), p)
+	props := ct.Panics.props(ct)
+	if ex.runtime {
+		// an index / slice / allocation failure is a safety matter of the function's own
+		// properties, not of the guard clause
+		props = ct.Props
+	}
+	u.oblige(st, "panics-iff", fmt.Sprintf("panics-iff:%s:only-if:%s", lbl, sanitize(ex.note)), props, p)
 	// nothing modified before the panic
 	for _, name := range st.memKeys() {
 		t := st.mem[name]
@@ -386,7 +392,7 @@ func (u *Unit) checkPanicExit(ex *Exit, n int) {
 		if name == "allocs" {
 			continue
 		}
-		u.oblige(st, "panics-iff", fmt.Sprintf("panics-iff:%s:unmodified:%s:%s", lbl, name, sanitize(ex.note)), ct.Panics.props(ct), Eq(t, o))
+		u.oblige(st, "panics-iff", fmt.Sprintf("panics-iff:%s:unmodified:%s:%s", lbl, compClass(name), sanitize(ex.note)), props, Eq(t, o))
 	}
 }
 
@@ -766,4 +772,13 @@ func (u *Unit) evalHint(env *SpecEnv, h *Clause) *Term {
 	}
 	u.hintsUsed[name] = true
 	return l.mk(u, args)
+}
+
+// compClass: the class part of a component name ("H:int8" -> "H"), so that
+// obligation labels do not depend on the instantiation.
+func compClass(name string) string {
+	if i := strings.IndexByte(name, ':'); i >= 0 {
+		return name[:i]
+	}
+	return name
 }
